@@ -133,6 +133,20 @@ def handleE (line : String) : Except String String := do
           match impl.subs.find? (fun t => t.tid == s.tid) with
           | none => res := { res with failure := some ("sub-missing", s.tid.id, "none") }
           | some is =>
+            -- function level: the trace of the whole function, started at the block at the function's address
+            match s.term.blocks.find? (fun b => b.tid.address == s.tid.address) with
+            | none => pure ()
+            | some entry =>
+              for seed in seeds.take 2 do
+                let σ₀ : State := { seed := seed, ptrBytes := ptr }
+                match runBlocks tbl env s.term.blocks 6 entry.tid σ₀ 0 with
+                | none => res := { res with undef := res.undef + 1 }
+                | some tr =>
+                  let itr := Sem.runSub env is.term σ₀ 6
+                  if itr != tr && res.failure.isNone then
+                    res := { res with failure := some ("sem-function-trace", renderEvents tr,
+                      renderEvents itr ++ s!"@{s.tid.id}:seed={seed}") }
+                  else res := { res with checked := res.checked + 1 }
             for pb in s.term.blocks do
               match is.term.blocks.find? (fun b => b.tid == pb.tid) with
               | none => res := { res with failure := some ("block-missing", pb.tid.id, "none") }
